@@ -240,6 +240,7 @@ class TheDict(MutableMapping):
     def update(self, flags=UpdateFlags.ANY):
         assert isinstance(flags, UpdateFlags)
         ebpf = self.ebpf
+        ebpf.owners.add(0)  # the call's result, not a place to save to
         with ebpf.save_registers([1, 2, 3, 4, 5]):
             ebpf.r1 = ebpf.get_fd(self.fd)
             ebpf.r2 = ebpf.r10 + self.key.addr_offset
@@ -250,6 +251,7 @@ class TheDict(MutableMapping):
     @contextmanager
     def lookup(self):
         ebpf = self.ebpf
+        ebpf.owners.add(0)  # the call's result, not a place to save to
         with ebpf.save_registers([1, 2, 3, 4, 5]):
             ebpf.r1 = ebpf.get_fd(self.fd)
             ebpf.r2 = ebpf.r10 + self.key.addr_offset
